@@ -3,7 +3,7 @@
 
   tools_mutants.py confirm <seeded-dir>...   demo fails with / passes without the change, existing suite still matches the baseline
                                              (scratch worktree under /tmp, removed afterwards); result -> <dir>/meta.json
-  tools_mutants.py check <seeded-dir>...     apply to /repo, run bin/vcheck <property> --tier quick, undo; result -> <dir>/meta.json
+  tools_mutants.py check <seeded-dir>...     apply to a scratch worktree, run bin/vcheck <property> --tier quick with VERIF_REPO pointing at it; result -> <dir>/meta.json
 """
 import json, os, subprocess, sys, time, shutil
 
@@ -58,22 +58,25 @@ def confirm(d):
 
 
 def check(d, tier='quick', props=None):
+    """runs the checks against a scratch worktree of /repo with the change applied (VERIF_REPO), so /repo itself is never touched"""
     d = os.path.abspath(d)
     m = load_meta(d)
-    rc, out = sh('git -C /repo status --porcelain --untracked-files=no')
-    assert out.strip() == '', 'tracked files of /repo are modified: ' + out
-    rc, out = sh('git -C /repo apply %s/patch.diff' % d)
-    assert rc == 0, out
+    wt = '/tmp/check_wt_%d_%s' % (os.getpid(), os.path.basename(d))
+    sh('git -C /repo worktree add -q %s HEAD' % wt)
     res = {}
     try:
+        rc, out = sh('git apply %s/patch.diff' % d, cwd=wt)
+        assert rc == 0, out
+        env = dict(os.environ, VERIF_REPO=wt)
         for pid in (props or [m.get('property') or os.path.basename(d)[:3]]):
             t0 = time.time()
-            rc, out = sh('%s/bin/vcheck %s --tier %s' % (V, pid, tier), cwd=V, timeout=7200)
+            rc, out = sh('%s/bin/vcheck %s --tier %s' % (V, pid, tier), cwd=V, env=env, timeout=7200)
             lines = [l for l in out.splitlines() if l.startswith(('VIOLATION', 'KNOWN-FINDING', 'INCONCLUSIVE', 'BLIND', 'VACUOUS')) or ' tier=' in l]
             res[pid] = dict(exit=rc, wall_s=round(time.time() - t0), detected=(rc == 1), lines=[l[:300] for l in lines][:12])
             print(os.path.basename(d), pid, 'exit', rc, 'DETECTED' if rc == 1 else 'missed', lines[-1][:160] if lines else '')
     finally:
-        sh('git -C /repo checkout -- .')
+        sh('git -C /repo worktree remove --force %s' % wt)
+        shutil.rmtree(wt, ignore_errors=True)
         sh('rm -f %s/replays/*.json' % V)
     m.setdefault('checks', {}).update({'%s/%s' % (k, tier): v for k, v in res.items()})
     save_meta(d, m)
